@@ -60,6 +60,10 @@ fn generate(seed: u64, tier: Tier) -> Value {
             "jump_before": if r.chance(1, 6) { *r.pick(&[-1000i64, -301, -30, 31, 301, 5000]) } else { 0 },
             "jump_inflight": if r.chance(1, 8) { *r.pick(&[-400i64, -31, 31, 400]) } else { 0 },
             "direct": *r.pick(&["record", "record_big", "envelope", "core_find_node", "core_store", "handle_dht_message"]),
+            "id_style": if r.chance(1, 3) { *r.pick(&["empty", "uni_at_36", "uni_at_36", "uni_random", "long_ascii", "long_uni", "nul", "uuid"]) } else { "plain" },
+            "id_shift": r.below(8),
+            "src_style": if r.chance(1, 6) { *r.pick(&["empty", "uni_random", "long_uni", "uni_at_36"]) } else { "plain" },
+            "target_style": if r.chance(1, 6) { *r.pick(&["plain", "empty", "uni_random", "long_uni", "uni_at_36"]) } else { "none" },
             "honest_after": r.chance(1, 3)}));
     }
     json!({"property": "C05", "seed": seed, "net_seed": r.below(1 << 40), "n": 2, "topology": "mesh", "edges": [[0, 1]],
@@ -67,6 +71,27 @@ fn generate(seed: u64, tier: Tier) -> Value {
            "nodes": (0..2).map(|i| json!({"tid_salt": r.below(1 << 40), "ip": [10, 1, r.below(250), 1 + i], "port": 9000 + i})).collect::<Vec<_>>(),
            "faults": {"silence": [], "slow": [], "drops": [], "dial": []}, "liars": [], "latency_ms": *r.pick(&[1u64, 5]), "jitter_ms": *r.pick(&[0u64, 5]),
            "extra_stubs": extra, "steps": steps})
+}
+
+/// Strings a hostile peer may put where the library expects an identifier.
+fn hostile_string(style: &str, plain: &str, shift: usize, sr: &mut Rng) -> String {
+    const WIDE: [char; 6] = ['\u{e9}', '\u{20ac}', '\u{1f980}', '\u{7ff}', '\u{800}', '\u{10ffff}'];
+    match style {
+        "empty" => String::new(),
+        // a multi-byte character straddling byte 36 (the length of a textual UUID), 32, 40 or 64
+        "uni_at_36" => {
+            let cut = *sr.pick(&[36usize, 36, 36, 32, 40, 64, 16, 8]);
+            let w = *sr.pick(&WIDE);
+            let lead = cut - 1 - shift % (w.len_utf8() - 1);
+            format!("{}{}{}", "a".repeat(lead), w, "-tail".repeat(sr.usize_below(4)))
+        }
+        "uni_random" => { let n = sr.usize_below(90); (0..n).map(|_| if sr.chance(1, 3) { *sr.pick(&WIDE) } else { (b'a' + sr.below(26) as u8) as char }).collect() }
+        "long_ascii" => "i".repeat(*sr.pick(&[37usize, 255, 256, 5000, 40_000])),
+        "long_uni" => WIDE[sr.usize_below(WIDE.len())].to_string().repeat(*sr.pick(&[13usize, 100, 3000])),
+        "nul" => format!("{plain}\u{0}\u{0}\u{202e}"),
+        "uuid" => { let b = sr.bytes(16); format!("{}-{}-{}-{}-{}", hex::encode(&b[0..4]), hex::encode(&b[4..6]), hex::encode(&b[6..8]), hex::encode(&b[8..10]), hex::encode(&b[10..16])) }
+        _ => plain.to_string(),
+    }
 }
 
 fn shrink(sc: &Value) -> Vec<Value> {
@@ -178,8 +203,14 @@ fn execute(sc: &Value) -> RunReport {
             let ts: u64 = if off == i64::MIN { 0 } else if off == i64::MAX { u64::MAX } else { (stamp_wall as i64 + off).max(0) as u64 };
             let mutk = st["mutate"].as_str().unwrap_or("none");
             // ---- build the frame
+            // identifiers and other strings inside the message are the peer's to choose: empty, very long,
+            // multi-byte characters straddling the lengths code likes to cut at (a 36-byte UUID), NULs
+            let msg_id = hostile_string(st["id_style"].as_str().unwrap_or("plain"), &format!("c05-{i}"), st["id_shift"].as_u64().unwrap_or(0) as usize, &mut sr);
+            let claimed = match st["src_style"].as_str().unwrap_or("plain") { "plain" => claimed, other => hostile_string(other, &claimed, 0, &mut sr) };
+            let target = match st["target_style"].as_str().unwrap_or("none") { "none" => None, "plain" => Some(victim.tid.clone()), other => Some(hostile_string(other, "t", 0, &mut sr)) };
+            if st["id_style"].as_str().unwrap_or("plain") != "plain" { ctx.probe("hostile_message_id"); }
             let mk_msg = |mt: DhtMessageType, payload: DhtNetworkOperation, result: Option<DhtNetworkResult>| DhtNetworkMessage {
-                message_id: format!("c05-{i}"), source: claimed.clone(), target: None, message_type: mt, payload, result, timestamp: ts, ttl: 7, hop_count: 0 };
+                message_id: msg_id.clone(), source: claimed.clone(), target: target.clone(), message_type: mt, payload, result, timestamp: ts, ttl: 7, hop_count: 0 };
             let key = key_for(i);
             let value = sr.bytes(st["value_len"].as_u64().unwrap_or(0) as usize);
             let op = match st["op"].as_str().unwrap_or("ping") {
@@ -209,9 +240,9 @@ fn execute(sc: &Value) -> RunReport {
                 "rr" => {
                     let inner = sr.bytes(st["str_len"].as_u64().unwrap_or(0) as usize);
                     let nested = if sr.chance(1, 3) { verif_hooks::encode_envelope("nested", true, inner) } else { inner };
-                    (format!("/rr/c05-{i}"), verif_hooks::encode_envelope(&format!("c05-{i}"), sr.chance(1, 2), nested))
+                    (format!("/rr/c05-{i}"), verif_hooks::encode_envelope(&msg_id, sr.chance(1, 2), nested))
                 }
-                "app" => (format!("c05-topic-{i}-{}", "t".repeat(sr.usize_below(3) * 500)), sr.bytes(st["rand_len"].as_u64().unwrap_or(0).min(100_000) as usize)),
+                "app" => (format!("c05-topic-{i}-{}{}", "t".repeat(sr.usize_below(3) * 500), if st["id_style"].as_str() == Some("plain") { String::new() } else { msg_id.chars().take(200).collect::<String>() }), sr.bytes(st["rand_len"].as_u64().unwrap_or(0).min(100_000) as usize)),
                 _ => (String::new(), Vec::new()),
             };
             if kind == "dht_req" {
@@ -292,7 +323,7 @@ fn execute(sc: &Value) -> RunReport {
             // (1) source identity and surfacing
             for (topic, source, data) in &evs {
                 if *source != htid {
-                    ctx.violate("C05.source.not_connection_identity", if *source == claimed { "claimed_from_used" } else { "other" }, format!("step {i}: event for topic `{}` carries source {} but the frame arrived on the connection of {} (payload claimed {})", topic.chars().take(40).collect::<String>(), &source[..source.len().min(16)], &htid[..16], &claimed[..claimed.len().min(16)]));
+                    ctx.violate("C05.source.not_connection_identity", if *source == claimed { "claimed_from_used" } else { "other" }, format!("step {i}: event for topic `{}` carries source {} but the frame arrived on the connection of {} (payload claimed {})", topic.chars().take(40).collect::<String>(), source.chars().take(16).collect::<String>(), &htid[..16], claimed.chars().take(16).collect::<String>()));
                 }
                 match &decoded {
                     Some((proto, d, _, _)) if proto == topic && d == data => {}
@@ -341,13 +372,13 @@ fn execute(sc: &Value) -> RunReport {
                 let ok = matches!(res, Ok(Ok(DhtNetworkResult::PongReceived { .. })));
                 ev!("step {i} honest ping ok={ok}");
                 if !ok { ctx.violate("C05.liveness.honest_request_failed_after_hostile_frame", kind, format!("step {i}: honest peer's ping after the hostile frame: {:?}", res.map(|r| r.map(|x| simnet::result_name(&x).to_string()).map_err(|e| e.to_string())))); }
-                while let Ok(e) = events.try_recv() { if let P2PEvent::Message { source, .. } = e { if source != peer.tid { ctx.violate("C05.source.not_connection_identity", "honest", format!("step {i}: event of the honest ping carries source {}", &source[..16])); } } }
+                while let Ok(e) = events.try_recv() { if let P2PEvent::Message { source, .. } = e { if source != peer.tid { ctx.violate("C05.source.not_connection_identity", "honest", format!("step {i}: event of the honest ping carries source {}", source.chars().take(16).collect::<String>())); } } }
             }
         }
         // ---- end state
         let peers = victim.manager.verif_dht_peers().await;
         for (pid, _k, _a, _c) in &peers {
-            if !conn_ids.contains(pid) { ctx.violate("C05.retain.peer_table_entry_from_payload", "", format!("peer table holds {} which is not the identity of any connection", &pid[..pid.len().min(16)])); }
+            if !conn_ids.contains(pid) { ctx.violate("C05.retain.peer_table_entry_from_payload", "", format!("peer table holds {} which is not the identity of any connection", pid.chars().take(16).collect::<String>())); }
         }
         let routing = dht.read().await.verif_routing_entries().await;
         let allowed: Vec<[u8; 32]> = conn_ids.iter().map(|t| saorsa_core::dht::derive_dht_key_from_peer_id(t)).collect();
